@@ -75,7 +75,8 @@ def _one(args):
                 N = min(N, 4 if k == 1 else 3)
             if vtype != "sympy" and k == 1:
                 N = min(N, 4)
-            inst = hermitian.gen_instance(rng, d=d, k=k, N=N, vtype=vtype)
+            inst = hermitian.gen_instance(rng, d=d, k=k, N=N, vtype=vtype,
+                                          corner="zero_block" if idx < 6 else None)
         except Regenerate:
             continue
         desc = hermitian.describe(inst)
